@@ -65,6 +65,20 @@ func shPiOf(s Sx) sh.ParameterisedIdentifier {
 }
 
 func shParsePl(input []byte) Sx {
+	// parsed twice; the first result is vandalised in between (a caller owns what it gets)
+	if pl0, err0 := sh.ParseParameterisedList(string(input)); err0 == nil {
+		for i := range pl0 {
+			if pl0[i].Params != nil {
+				pl0[i].Params["vandal"] = int64(1)
+				for k := range pl0[i].Params {
+					if b, ok := pl0[i].Params[k].([]byte); ok {
+						scribble(b)
+					}
+				}
+			}
+			pl0[i].Label = "vandal"
+		}
+	}
 	pl, err := sh.ParseParameterisedList(string(input))
 	if err != nil {
 		return ErrV()
@@ -77,6 +91,16 @@ func shParsePl(input []byte) Sx {
 }
 
 func shParseLol(input []byte) Sx {
+	if ll0, err0 := sh.ParseListOfLists(string(input)); err0 == nil {
+		for _, l := range ll0 {
+			for i := range l {
+				if b, ok := l[i].([]byte); ok {
+					scribble(b)
+				}
+				l[i] = sh.Token("vandal")
+			}
+		}
+	}
 	ll, err := sh.ParseListOfLists(string(input))
 	if err != nil {
 		return ErrV()
